@@ -40,14 +40,20 @@ def tol(x64, abs_terms, cond=0.0):
 
 def assign_all(b, desc, values, mode, buffers=None):
     """mode: 'auto' (auto-update on) | 'off' (off, then full update) | 'targeted' (off, then a targeted
-    update of the three totals only)."""
+    update of the three totals only) | 'mixed' (off for the first assignments, switched on for the rest)."""
     import jax.numpy as jnp
 
     m = b.model
     m.auto_update = mode == "auto"
+    n_vars = sum(1 for it in desc["items"] if it["t"] == "var")
+    seen = 0
     for it in desc["items"]:
         if it["t"] != "var":
             continue
+        seen += 1
+        if mode == "mixed" and seen == max(2, n_vars // 2 + 1):
+            # auto-update was off for the first assignments and is switched on for the rest (no explicit update)
+            m.auto_update = True
         v = np.asarray(values[it["name"]], np.float64)
         tgt = b.transformed[it["name"]] if it["name"] in b.transformed else b.objs[it["name"]]
         new = np.asarray(sm.to_unconstrained(sm.bij_kind(it), v) if it["name"] in b.transformed else v,
@@ -61,7 +67,7 @@ def assign_all(b, desc, values, mode, buffers=None):
             tgt.value = buf
         else:
             tgt.value = jnp.asarray(new, b.ft)
-    if mode == "off":
+    if mode == "off" or (mode == "mixed" and not m.auto_update):
         m.update()
     elif mode == "targeted":
         m.update("_model_log_prob", "_model_log_lik", "_model_log_prior")
@@ -147,7 +153,11 @@ def case_program(case, res):
             targets.add(plain[a])
             mistakes.append((plain[a], plain[c], ["dist", "value"][int(rng.integers(2))]))
         w["rejected_assignments_before_build"] = mistakes
-    b = sm.build(desc, x64=x64, initial=vals0, mistakes=mistakes)
+    try:
+        b = sm.build(desc, x64=x64, initial=vals0, mistakes=mistakes)
+    except sm.RejectedAssignmentChanged as exc:
+        res.violation("changed-by-rejected-assignment", str(exc), w)
+        return
     if mistakes:
         res.ev("rejected_node_assignments_before_build", b.n_rejected)
     judge(res, b, desc, vals0, x64, "at build", w)
@@ -161,7 +171,7 @@ def case_program(case, res):
     buffers = {} if case["idx"] % 2 == 1 and not x64 else None
     for j in range(K):
         vals = sm.initial_values(desc, rng)
-        mode = ["auto", "off", "targeted"][j % 3]
+        mode = ["auto", "off", "targeted", "mixed"][j % 4]
         assign_all(b, desc, vals, mode, buffers)
         if buffers is not None:
             res.ev("assignments_from_reused_buffers")
